@@ -294,9 +294,9 @@ Proof.
   destruct s; cbn [seg_code is_sos]; cbn [seg_ok] in H;
     try (unfold M_DQT, M_DHT, M_DAC, M_DRI, M_COM, M_SOS; cbn; lia).
   - rewrite !andb_true_iff in H. destruct H as ((H & H0) & H1). apply in_range_iff in H. unfold M_APP0.
-    repeat split; try lia. apply Z.eqb_neq. lia.
+    repeat split; try lia; apply Z.eqb_neq; lia.
   - rewrite !andb_true_iff in H. destruct H as (((((H & H0) & H1) & H2) & H3) & H4). apply is_sof_code_range in H. unfold M_SOF0 in *.
-    repeat split; try lia. apply Z.eqb_neq. lia.
+    repeat split; try lia; apply Z.eqb_neq; lia.
 Qed.
 
 Lemma payload_len_ok : forall s, seg_ok s = true -> lenZ (seg_payload s) <= 65533.
